@@ -14,9 +14,9 @@ Lemma updN_other {A} (f : N -> A) t u x : u <> t -> updN f t x u = f u.
 Proof. unfold updN. intros H. destruct (N.eqb_spec u t); congruence. Qed.
 
 Lemma active_not_holding_running p : active p = true -> holding p = false -> running p = true.
-Proof. destruct p as [| | |[]|[]| | | | | | |]; simpl; congruence. Qed.
+Proof. destruct p as [| | |[]|[]| | | | | | | |]; simpl; congruence. Qed.
 Lemma running_active p : running p = true -> active p = true.
-Proof. destruct p as [| | |[]|[]| | | | | | |]; simpl; congruence. Qed.
+Proof. destruct p as [| | |[]|[]| | | | | | | |]; simpl; congruence. Qed.
 Lemma running_accepted p : running p = true -> accepted p = true.
 Proof. unfold accepted. intros ->. reflexivity. Qed.
 Lemma cleared_accepted p : cleared p = true -> accepted p = true.
@@ -49,12 +49,16 @@ Record Inv (s : state) : Prop := {
             nth_error inp j = Some (FReq old k) -> running (pc s j) = true ->
             match pc s i with
             | RCaptured true w | RRun w => old <> t -> w = Some j
-            | RRet _ | RClr _ | RSend _ _ | RDone _ => False
+            | RRet _ | RClr _ | RSend _ _ | RDone _ | RDoneF _ => False
             | _ => True
             end;
   I_send1 : forall i r k, pc s i = RSend r k -> sendmu s = Some i /\ k <= S (r_extra r);
   I_send2 : forall h, sendmu s = Some h -> exists r k, pc s h = RSend r k;
-  I_wire : wire s = flat_map chunks (replies s) ++ partial s;
+  I_wire : wire s = flat_map chunks (replies s) ++ torn s ++ partial s;
+  I_fail : forall i r, pc s i = RDoneF r -> wbroken s = true;
+  I_torn1 : wbroken s = false -> torn s = [];
+  I_torn2 : torn s <> [] -> forall i r k, pc s i = RSend r k -> k = 0;
+  I_torn3 : torn s = [] \/ exists h r k, pc s h = RDoneF r /\ k <= r_extra r /\ torn s = map (pair h) (seq 0 k);
   I_rep : forall i r, In (i, r) (replies s) <-> pc s i = RDone r;
   I_nodup : NoDup (map fst (replies s));
   I_recvr : shut s = false -> 0 < nnew s + nidle s \/ recvmu s = true;
@@ -77,7 +81,7 @@ Ltac inv_exec H :=
          | Some _ = Some _ => injection H as H; subst
          end.
 
-Ltac step_cases l H := destruct l; cbn [exec] in H; inv_exec H; cbn [set_pc nrecv shut recvmu nnew nidle pc tags closed sendmu wire replies].
+Ltac step_cases l H := destruct l; cbn [exec] in H; inv_exec H; cbn [set_pc nrecv shut recvmu nnew nidle pc tags closed sendmu wire replies wbroken torn].
 
 Ltac upd_cases :=
   repeat match goal with
@@ -179,6 +183,7 @@ Proof.
   - old_tags1 I Hc.
   - old_tags1 I Hc.
   - old_tags1 I Hc.
+  - old_tags1 I Hc.
 Qed.
 
 Ltac old_tags2 I Hf Ha :=
@@ -208,6 +213,7 @@ Proof.
     assert (Hu := I_tags2 _ I _ _ _ Hf Ha).
     assert (Hi : tags s t = Some i) by (apply (I_tags2 _ I _ _ _ E0); rewrite E; reflexivity).
     rewrite updN_other; [assumption|]. intros ->. congruence.
+  - old_tags2 I Hf Ha.
   - old_tags2 I Hf Ha.
   - old_tags2 I Hf Ha.
   - old_tags2 I Hf Ha.
@@ -281,7 +287,7 @@ Proof. destruct p; simpl; congruence. Qed.
 Definition flush_ok (s : state) (i j : nat) (t old : N) : Prop :=
   match pc s i with
   | RCaptured true w | RRun w => old <> t -> w = Some j
-  | RRet _ | RClr _ | RSend _ _ | RDone _ => False
+  | RRet _ | RClr _ | RSend _ _ | RDone _ | RDoneF _ => False
   | _ => True
   end.
 
@@ -322,7 +328,8 @@ Proof.
   intros I H. step_cases l H; intros j r0 k0 Hp; upd_in Hp; try discriminate; try (now apply (I_send1 _ I _ _ _ Hp)).
   - injection Hp as <- <-. split; [reflexivity|lia].
   - destruct (I_send1 _ I _ _ _ Hp). congruence.
-  - injection Hp as <- <-. destruct (I_send1 _ I _ _ _ E). apply Nat.leb_le in E0. split; [assumption|lia].
+  - injection Hp as <- <-. destruct (I_send1 _ I _ _ _ E). apply andb_prop in E0. destruct E0 as [E0 _]. apply Nat.leb_le in E0. split; [assumption|lia].
+  - destruct (I_send1 _ I _ _ _ Hp). destruct (I_send1 _ I _ _ _ E). congruence.
   - destruct (I_send1 _ I _ _ _ Hp). destruct (I_send1 _ I _ _ _ E). congruence.
 Qed.
 
@@ -341,21 +348,67 @@ Proof.
   intros Hm Hp. unfold partial. rewrite Hm. destruct (sendmu s) as [h|]; [|reflexivity]. now rewrite Hp.
 Qed.
 
-Lemma pres_wire s l s' : Inv s -> exec inp l s = Some s' -> wire s' = flat_map chunks (replies s') ++ partial s'.
+Lemma pres_wire s l s' : Inv s -> exec inp l s = Some s' -> wire s' = flat_map chunks (replies s') ++ torn s' ++ partial s'.
 Proof.
   intros I H. assert (Hw := I_wire _ I).
   step_cases l H; try exact Hw;
-  try (match goal with |- wire s = flat_map chunks (replies s) ++ partial ?s1 =>
+  try (match goal with |- wire s = flat_map chunks (replies s) ++ torn s ++ partial ?s1 =>
          replace (partial s1) with (partial s); [exact Hw|symmetry; apply partial_same; [reflexivity|];
          cbn [set_pc pc sendmu]; intros h Hh; destruct (I_send2 _ I _ Hh) as (r0 & k0 & Hp); upd_cases; try reflexivity; try congruence;
          rewrite (I_dom_hi _ I (nrecv s)) in Hp by lia; discriminate] end).
   - unfold partial. cbn [sendmu pc]. rewrite upd_same. simpl. rewrite Hw. unfold partial. now rewrite E0.
   - destruct (I_send1 _ I _ _ _ E) as [Hs _]. unfold partial. cbn [sendmu pc]. rewrite Hs, upd_same.
-    rewrite Hw. unfold partial. rewrite Hs, E. rewrite seq_S, map_app, app_assoc. reflexivity.
+    rewrite Hw. unfold partial. rewrite Hs, E. rewrite seq_S, map_app, !app_assoc. reflexivity.
   - destruct (I_send1 _ I _ _ _ E) as [Hs _]. apply Nat.eqb_eq in E0. subst k.
     unfold partial at 1. cbn [sendmu]. rewrite flat_map_app, app_nil_r. cbn [flat_map]. rewrite app_nil_r.
-    rewrite Hw. unfold partial. rewrite Hs, E. reflexivity.
+    assert (Ht : torn s = []).
+    { destruct (torn s) as [|x t] eqn:Et; [reflexivity|]. exfalso.
+      assert (Hne : torn s <> []) by (rewrite Et; discriminate).
+      specialize (I_torn2 _ I Hne _ _ _ E). discriminate. }
+    rewrite Hw. unfold partial. rewrite Hs, E, Ht. cbn [app]. now rewrite app_nil_r.
+  - destruct (I_send1 _ I _ _ _ E) as [Hs _].
+    unfold partial at 1. cbn [sendmu]. rewrite app_nil_r. rewrite Hw. unfold partial. rewrite Hs, E. reflexivity.
 Qed.
+
+Lemma pres_fail s l s' : Inv s -> exec inp l s = Some s' -> forall i r, pc s' i = RDoneF r -> wbroken s' = true.
+Proof.
+  intros I H. assert (Hw := I_fail _ I).
+  step_cases l H; intros j r0 Hp; upd_in Hp; try discriminate; try (now apply (Hw _ _ Hp)); try reflexivity.
+  apply andb_prop in E0. now destruct E0.
+Qed.
+
+Lemma pres_torn1 s l s' : Inv s -> exec inp l s = Some s' -> wbroken s' = false -> torn s' = [].
+Proof.
+  intros I H. assert (Hw := I_torn1 _ I). step_cases l H; try exact Hw; try discriminate.
+  apply andb_prop in E0. destruct E0 as [_ E0]. intros Hb. congruence.
+Qed.
+
+Lemma pres_torn2 s l s' : Inv s -> exec inp l s = Some s' -> torn s' <> [] -> forall i r k, pc s' i = RSend r k -> k = 0.
+Proof.
+  intros I H. assert (Hw := I_torn2 _ I).
+  step_cases l H; intros Ht j r0 k0 Hp; upd_in Hp; try discriminate; try (now apply (Hw Ht _ _ _ Hp)).
+  - now injection Hp as _ <-.
+  - exfalso. apply andb_prop in E0. destruct E0 as [_ E0]. apply Ht. apply (I_torn1 _ I).
+    destruct (wbroken s); [discriminate|reflexivity].
+  - exfalso. destruct (I_send1 _ I _ _ _ Hp). destruct (I_send1 _ I _ _ _ E). congruence.
+Qed.
+
+Lemma pres_torn3 s l s' : Inv s -> exec inp l s = Some s' ->
+  torn s' = [] \/ exists h r k, pc s' h = RDoneF r /\ k <= r_extra r /\ torn s' = map (pair h) (seq 0 k).
+Proof.
+  intros I H. assert (Hw := I_torn3 _ I).
+  step_cases l H; try exact Hw;
+  try (destruct Hw as [Hw|(h & r0 & k0 & Hh & Hk & Ht)]; [now left|right; exists h, r0, k0; split; [|split; assumption]];
+       upd_cases; try assumption; try congruence; rewrite (I_dom_hi _ I (nrecv s)) in Hh by lia; discriminate).
+  apply andb_prop in E0. destruct E0 as [E0 _]. apply Nat.leb_le in E0.
+  destruct (torn s) as [|x t] eqn:Et.
+  - right. exists i, r, k. rewrite upd_same. auto.
+  - assert (Hne : torn s <> []) by (rewrite Et; discriminate).
+    assert (k = 0) by exact (I_torn2 _ I Hne _ _ _ E). subst k. cbn [seq map]. rewrite app_nil_r.
+    destruct Hw as [Hw|(h & r0 & k0 & Hh & Hk & Ht)]; [discriminate|].
+    right. exists h, r0, k0. split; [|auto]. rewrite upd_other; [assumption|]. intros ->. congruence.
+Qed.
+
 
 Lemma pres_rep s l s' : Inv s -> exec inp l s = Some s' -> forall i r, In (i, r) (replies s') <-> pc s' i = RDone r.
 Proof.
@@ -427,6 +480,10 @@ Proof.
   - eapply pres_send1; eauto.
   - eapply pres_send2; eauto.
   - eapply pres_wire; eauto.
+  - eapply pres_fail; eauto.
+  - eapply pres_torn1; eauto.
+  - eapply pres_torn2; eauto.
+  - eapply pres_torn3; eauto.
   - eapply pres_rep; eauto.
   - eapply pres_nodup; eauto.
   - eapply pres_recvr; eauto.
@@ -496,19 +553,31 @@ Proof.
 Qed.
 
 (** contiguity *)
-Lemma wire_frames s : Inv s ->
-  exists pre, wire s = flat_map chunks (replies s) ++ pre /\
-    (pre = [] \/ exists h r k, sendmu s = Some h /\ pc s h = RSend r k /\ k <= S (r_extra r) /\ pre = firstn k (chunks (h, r))).
+Lemma firstn_chunks h r k : k <= S (r_extra r) -> firstn k (chunks (h, r)) = map (pair h) (seq 0 k).
 Proof.
-  intros I. exists (partial s). split; [apply I|].
-  unfold partial. destruct (sendmu s) as [h|] eqn:Hs; [|now left].
-  destruct (I_send2 _ I _ Hs) as (r & k & Hp). rewrite Hp. right. exists h, r, k.
-  destruct (I_send1 _ I _ _ _ Hp) as [_ Hk]. repeat split; auto.
-  unfold chunks. simpl fst. simpl snd. rewrite firstn_map. f_equal.
-  clear -Hk. generalize 0. revert Hk. generalize (S (r_extra r)). intros n. revert k.
+  intros Hk. unfold chunks. simpl fst. simpl snd. rewrite firstn_map. f_equal.
+  generalize 0. revert Hk. generalize (S (r_extra r)). intros n. revert k.
   induction n; intros k Hk a.
   - now replace k with 0 by lia.
   - destruct k; [reflexivity|]. simpl. f_equal. apply IHn. lia.
+Qed.
+
+Lemma wire_frames s : Inv s ->
+  exists pre, wire s = flat_map chunks (replies s) ++ pre /\
+    (pre = [] \/ exists h r k, ((sendmu s = Some h /\ pc s h = RSend r k) \/ pc s h = RDoneF r) /\
+                               k <= S (r_extra r) /\ pre = firstn k (chunks (h, r))).
+Proof.
+  intros I. exists (torn s ++ partial s). split; [apply I|].
+  destruct (torn s) as [|x t] eqn:Et.
+  - cbn [app]. unfold partial. destruct (sendmu s) as [h|] eqn:Hs; [|now left].
+    destruct (I_send2 _ I _ Hs) as (r & k & Hp). rewrite Hp. right. exists h, r, k.
+    destruct (I_send1 _ I _ _ _ Hp) as [_ Hk]. split; [left; auto|]. split; [assumption|]. now rewrite firstn_chunks.
+  - assert (Hne : torn s <> []) by (rewrite Et; discriminate).
+    assert (Hp0 : partial s = []).
+    { unfold partial. destruct (sendmu s) as [h|] eqn:Hs; [|reflexivity].
+      destruct (I_send2 _ I _ Hs) as (r & k & Hp). rewrite Hp. now rewrite (I_torn2 _ I Hne _ _ _ Hp). }
+    rewrite Hp0, app_nil_r. destruct (I_torn3 _ I) as [Ht|(h & r & k & Hh & Hk & Ht)]; [congruence|].
+    right. exists h, r, k. split; [now right|]. split; [lia|]. rewrite <- Et, Ht. rewrite firstn_chunks by lia. reflexivity.
 Qed.
 
 (** counting *)
@@ -529,9 +598,35 @@ Proof.
     + now rewrite Hin.
   - apply NoDup_filter, seq_NoDup.
   - intros i Hi. apply filter_In in Hi. destruct Hi as [_ Hd].
-    destruct (pc s i) as [| | | | | | | | | | |r] eqn:Hp; try discriminate.
+    destruct (pc s i) as [| | | | | | | | | | |r|] eqn:Hp; try discriminate.
     apply in_map_iff. exists (i, r). split; [reflexivity|]. now apply (I_rep _ I).
 Qed.
+
+Definition is_failed (p : rpc) : bool := match p with RDoneF _ => true | _ => false end.
+(** received frames that get no reply frame: dropped (tag in flight), the connection error itself, send failed *)
+Definition is_unanswered (p : rpc) : bool := is_dropped p || is_conn p || is_failed p.
+
+Lemma filter2_length {A} (p q : A -> bool) l :
+  (forall x, In x l -> p x = negb (q x)) -> length (filter p l) + length (filter q l) = length l.
+Proof.
+  induction l as [|x l IH]; simpl; intros H; [reflexivity|].
+  assert (IH' := IH (fun y Hy => H y (or_intror Hy))).
+  rewrite (H x (or_introl eq_refl)). destruct (q x); simpl; lia.
+Qed.
+
+Lemma quiescent_count s : Inv s -> (forall i, final (pc s i) = true) ->
+  length (replies s) + count_pc is_unanswered s = nrecv s.
+Proof.
+  intros I Hq. rewrite replies_count by assumption. unfold count_pc.
+  rewrite filter2_length; [apply seq_length|].
+  intros i Hi. apply in_seq in Hi. assert (Hf := Hq i).
+  destruct (pc s i) eqn:Hp; simpl in *; try discriminate; auto.
+  exfalso. destruct (I_dom_lo _ I i) as (f & _ & Hw); [lia|]. rewrite Hp in Hw. destruct f as [|?|? []]; exact Hw.
+Qed.
+
+(** with a writer that never failed nothing is in RDoneF *)
+Lemma no_failed_unbroken s : Inv s -> wbroken s = false -> forall i r, pc s i <> RDoneF r.
+Proof. intros I Hb i r Hp. rewrite (I_fail _ I _ _ Hp) in Hb. discriminate. Qed.
 
 Lemma filter3_length {A} (p q r : A -> bool) l :
   (forall x, In x l -> (p x = true /\ q x = false /\ r x = false) \/ (p x = false /\ q x = true /\ r x = false) \/ (p x = false /\ q x = false /\ r x = true)) ->
@@ -542,14 +637,15 @@ Proof.
   destruct (H x (or_introl eq_refl)) as [(->&->&->)|[(->&->&->)|(->&->&->)]]; simpl; lia.
 Qed.
 
-Lemma quiescent_count s : Inv s -> (forall i, final (pc s i) = true) ->
+Lemma quiescent_count_unbroken s : Inv s -> wbroken s = false -> (forall i, final (pc s i) = true) ->
   length (replies s) + count_pc is_dropped s + count_pc is_conn s = nrecv s.
 Proof.
-  intros I Hq. rewrite replies_count by assumption. unfold count_pc.
+  intros I Hb Hq. rewrite replies_count by assumption. unfold count_pc.
   rewrite filter3_length; [apply seq_length|].
   intros i Hi. apply in_seq in Hi. assert (Hf := Hq i).
   destruct (pc s i) eqn:Hp; simpl in *; try discriminate; auto.
-  exfalso. destruct (I_dom_lo _ I i) as (f & _ & Hw); [lia|]. rewrite Hp in Hw. destruct f as [|?|? []]; exact Hw.
+  - exfalso. destruct (I_dom_lo _ I i) as (f & _ & Hw); [lia|]. rewrite Hp in Hw. destruct f as [|?|? []]; exact Hw.
+  - exfalso. eapply no_failed_unbroken; eauto.
 Qed.
 
 (** * Flush ordering *)
@@ -615,9 +711,10 @@ Proof.
   intros I Hp. destruct (I_send1 _ I _ _ _ Hp) as [_ Hk].
   destruct (Nat.eqb k (S (r_extra r))) eqn:He.
   - exists (LUnlock h). eexists. split; [reflexivity|]. cbn [exec]. rewrite Hp, He. reflexivity.
-  - exists (LChunk h). eexists. split; [reflexivity|]. cbn [exec]. rewrite Hp.
-    apply Nat.eqb_neq in He. assert (Hl : Nat.leb k (r_extra r) = true) by (apply Nat.leb_le; lia).
-    rewrite Hl. reflexivity.
+  - apply Nat.eqb_neq in He. assert (Hl : Nat.leb k (r_extra r) = true) by (apply Nat.leb_le; lia).
+    destruct (wbroken s) eqn:Hb.
+    + exists (LSendFail h). eexists. split; [reflexivity|]. cbn [exec]. rewrite Hp, Hl, Hb. reflexivity.
+    + exists (LChunk h). eexists. split; [reflexivity|]. cbn [exec]. rewrite Hp, Hl, Hb. reflexivity.
 Qed.
 
 Lemma progress_at s : Inv s -> forall i, final (pc s i) = false -> ~ waits_back s i ->
@@ -626,7 +723,7 @@ Proof.
   intros I i. induction i as [i IH] using lt_wf_ind. intros Hnf Hnw.
   assert (Hlt : i < nrecv s) by (apply lt_recv; [assumption|]; intros Hx; rewrite Hx in Hnf; discriminate).
   destruct (I_dom_lo _ I i Hlt) as (f & Hf & Hw).
-  destruct (pc s i) as [| | |b|b w| |w| |r|r|r k|r] eqn:Hp; simpl in Hnf; try discriminate.
+  destruct (pc s i) as [| | |b|b w| |w| |r|r|r k|r|r] eqn:Hp; simpl in Hnf; try discriminate.
   - (* RGot *) destruct f as [|t|t k]; simpl in Hw; try contradiction.
     + exists (LSpawn i (mkReply RErr 0)). eexists. split; [reflexivity|]. cbn [exec]. rewrite Hp, Hf. simpl. reflexivity.
     + exists (LStart i). eexists. split; [reflexivity|]. cbn [exec]. rewrite Hp, Hf. reflexivity.
@@ -751,7 +848,7 @@ Proof.
       try (subst s2; cbn [set_pc shut nrecv pc]; try rewrite upd_same; auto; fail).
     exists (LCapture i :: ls), s'. split; [simpl; exact H1|]. split; [|exact H3].
     cbn [run exec]. rewrite Hp1, Hf1. subst s2. exact H2. }
-  destruct (pc s i) as [| | |b|b w| |w| |r|r|r k|r] eqn:Hp; simpl in Hh; try discriminate.
+  destruct (pc s i) as [| | |b|b w| |w| |r|r|r k|r|r] eqn:Hp; simpl in Hh; try discriminate.
   - destruct f as [|t|t k]; simpl in Hw; try contradiction.
     + destruct (exec inp (LSpawn i (mkReply RErr 0)) s) as [s2|] eqn:He.
       2:{ exfalso. cbn [exec] in He. rewrite Hp, Hf in He. discriminate. }
@@ -786,80 +883,142 @@ Proof.
   destruct (exec inp l s) as [s1|] eqn:He; [|discriminate]. eapply IH; [eapply Inv_step; eauto|exact H].
 Qed.
 
+(** the send of request i is over: its frame is on the wire, or - only if the peer stopped reading - it failed *)
+Definition send_over (s : state) (i : nat) (r : reply) : Prop :=
+  pc s i = RDone r \/ (wbroken s = true /\ pc s i = RDoneF r).
+
 Lemma finish_send n : forall s h r k, Inv s -> pc s h = RSend r k -> S (r_extra r) - k = n ->
   exists ls s', forallb progress_label ls = true /\ run inp ls s = Some s' /\
-    pc s' h = RDone r /\ sendmu s' = None /\ (forall j, j <> h -> pc s' j = pc s j).
+    send_over s' h r /\ wbroken s' = wbroken s /\ sendmu s' = None /\ (forall j, j <> h -> pc s' j = pc s j).
 Proof.
   induction n as [|n IH]; intros s h r k I Hp Hn; destruct (I_send1 _ I _ _ _ Hp) as [_ Hk].
   - assert (He : Nat.eqb k (S (r_extra r)) = true) by (apply Nat.eqb_eq; lia).
     exists [LUnlock h]. eexists. split; [reflexivity|]. split; [cbn [run exec]; rewrite Hp, He; reflexivity|].
-    cbn [pc sendmu]. split; [now rewrite upd_same|]. split; [reflexivity|]. intros j Hj. now rewrite upd_other.
+    unfold send_over. cbn [pc sendmu wbroken]. rewrite upd_same.
+    split; [left; reflexivity|]. split; [reflexivity|]. split; [reflexivity|]. intros j Hj. now rewrite upd_other.
   - assert (Hl : Nat.leb k (r_extra r) = true) by (apply Nat.leb_le; lia).
-    destruct (exec inp (LChunk h) s) as [s1|] eqn:He; [|cbn [exec] in He; rewrite Hp, Hl in He; discriminate].
-    assert (I1 := Inv_step _ _ _ I He).
-    cbn [exec] in He. rewrite Hp, Hl in He. injection He as He.
-    assert (Hp1 : pc s1 h = RSend r (S k)) by (subst s1; cbn [pc]; now rewrite upd_same).
-    destruct (IH s1 h r (S k) I1 Hp1) as (ls & s' & H1 & H2 & H3 & H4 & H5); [lia|].
-    exists (LChunk h :: ls), s'. split; [exact H1|]. split.
-    + cbn [run exec]. rewrite Hp, Hl. subst s1. exact H2.
-    + split; [exact H3|]. split; [exact H4|]. intros j Hj. rewrite (H5 j Hj). subst s1. cbn [pc]. now rewrite upd_other.
+    destruct (wbroken s) eqn:Hb.
+    + exists [LSendFail h]. eexists. split; [reflexivity|]. split; [cbn [run exec]; rewrite Hp, Hl, Hb; reflexivity|].
+      unfold send_over. cbn [pc sendmu wbroken]. rewrite upd_same.
+      split; [right; auto|]. split; [auto|]. split; [reflexivity|]. intros j Hj. now rewrite upd_other.
+    + destruct (exec inp (LChunk h) s) as [s1|] eqn:He; [|cbn [exec] in He; rewrite Hp, Hl, Hb in He; discriminate].
+      assert (I1 := Inv_step _ _ _ I He).
+      cbn [exec] in He. rewrite Hp, Hl, Hb in He. injection He as He.
+      assert (Hp1 : pc s1 h = RSend r (S k)) by (subst s1; cbn [pc]; now rewrite upd_same).
+      destruct (IH s1 h r (S k) I1 Hp1) as (ls & s' & H1 & H2 & H3 & H4 & H5 & H6); [lia|].
+      exists (LChunk h :: ls), s'. split; [exact H1|]. split.
+      * cbn [run exec]. rewrite Hp, Hl, Hb. subst s1. exact H2.
+      * split; [exact H3|]. split; [rewrite H4; subst s1; cbn [wbroken]; congruence|]. split; [exact H5|].
+        intros j Hj. rewrite (H6 j Hj). subst s1. cbn [pc]. now rewrite upd_other.
 Qed.
 
 Lemma ret_completes s i r : Inv s -> pc s i = RRet r ->
-  exists ls s', forallb progress_label ls = true /\ run inp ls s = Some s' /\ pc s' i = RDone r.
+  exists ls s', forallb progress_label ls = true /\ run inp ls s = Some s' /\ send_over s' i r /\ wbroken s' = wbroken s.
 Proof.
   intros I Hp.
   destruct (ClearTag_never_panics s i r I Hp) as (s1 & He1).
   assert (I1 := Inv_step _ _ _ I He1).
-  assert (Hp1 : pc s1 i = RClr r /\ sendmu s1 = sendmu s).
+  assert (Hp1 : pc s1 i = RClr r /\ sendmu s1 = sendmu s /\ wbroken s1 = wbroken s).
   { cbn [exec] in He1. rewrite Hp in He1. destruct (nth_error inp i) as [[|?|t k]|]; try discriminate.
-    destruct (tags s t); [|discriminate]. injection He1 as <-. cbn [pc sendmu]. now rewrite upd_same. }
-  destruct Hp1 as [Hp1 Hs1].
-  (* make sendMu free *)
-  assert (Hfree : exists ls2 s2, forallb progress_label ls2 = true /\ run inp ls2 s1 = Some s2 /\ pc s2 i = RClr r /\ sendmu s2 = None).
+    destruct (tags s t); [|discriminate]. injection He1 as <-. cbn [pc sendmu wbroken]. now rewrite upd_same. }
+  destruct Hp1 as (Hp1 & Hs1 & Hb1).
+  assert (Hfree : exists ls2 s2, forallb progress_label ls2 = true /\ run inp ls2 s1 = Some s2 /\ pc s2 i = RClr r /\ sendmu s2 = None /\ wbroken s2 = wbroken s1).
   { destruct (sendmu s1) as [h|] eqn:Hm.
     - destruct (I_send2 _ I1 _ Hm) as (r' & k' & Hh).
       assert (Hhi : i <> h) by (intros ->; congruence).
-      destruct (finish_send _ s1 h r' k' I1 Hh eq_refl) as (ls & s2 & H1 & H2 & _ & H4 & H5).
-      exists ls, s2. split; [exact H1|]. split; [exact H2|]. split; [now rewrite (H5 i Hhi)|exact H4].
+      destruct (finish_send _ s1 h r' k' I1 Hh eq_refl) as (ls & s2 & H1 & H2 & _ & H4 & H5 & H6).
+      exists ls, s2. split; [exact H1|]. split; [exact H2|]. split; [now rewrite (H6 i Hhi)|auto].
     - exists [], s1. repeat split; auto. }
-  destruct Hfree as (ls2 & s2 & Hl2 & Hr2 & Hp2 & Hm2).
+  destruct Hfree as (ls2 & s2 & Hl2 & Hr2 & Hp2 & Hm2 & Hb2).
   assert (I2 := run_Inv _ _ _ I1 Hr2).
   destruct (exec inp (LLock i) s2) as [s3|] eqn:He3; [|cbn [exec] in He3; rewrite Hp2, Hm2 in He3; discriminate].
   assert (I3 := Inv_step _ _ _ I2 He3).
-  assert (Hp3 : pc s3 i = RSend r 0).
-  { cbn [exec] in He3. rewrite Hp2, Hm2 in He3. injection He3 as <-. cbn [pc]. now rewrite upd_same. }
-  destruct (finish_send _ s3 i r 0 I3 Hp3 eq_refl) as (ls4 & s4 & Hl4 & Hr4 & Hp4 & _ & _).
+  assert (Hp3 : pc s3 i = RSend r 0 /\ wbroken s3 = wbroken s2).
+  { cbn [exec] in He3. rewrite Hp2, Hm2 in He3. injection He3 as <-. cbn [pc wbroken]. now rewrite upd_same. }
+  destruct Hp3 as [Hp3 Hb3].
+  destruct (finish_send _ s3 i r 0 I3 Hp3 eq_refl) as (ls4 & s4 & Hl4 & Hr4 & Hp4 & Hb4 & _ & _).
   exists (LClear i :: ls2 ++ LLock i :: ls4), s4. split.
   - cbn [forallb progress_label]. rewrite forallb_app. cbn [forallb progress_label]. now rewrite Hl2, Hl4.
-  - split; [|exact Hp4]. cbn [run]. rewrite He1. rewrite (run_app _ (LLock i :: ls4) _ _ Hr2). cbn [run]. now rewrite He3.
+  - split; [|split; [exact Hp4|congruence]]. cbn [run]. rewrite He1. rewrite (run_app _ (LLock i :: ls4) _ _ Hr2). cbn [run]. now rewrite He3.
 Qed.
 
 Lemma op_completes s i w t r : Inv s -> pc s i = RRun w -> nth_error inp i = Some (FReq t KOp) ->
-  exists ls s', forallb progress_label ls = true /\ run inp ls s = Some s' /\ pc s' i = RDone r.
+  exists ls s', forallb progress_label ls = true /\ run inp ls s = Some s' /\ send_over s' i r /\ wbroken s' = wbroken s.
 Proof.
   intros I Hp Hf.
   destruct (exec inp (LReturn i r) s) as [s1|] eqn:He; [|cbn [exec] in He; rewrite Hp, Hf in He; discriminate].
   assert (I1 := Inv_step _ _ _ I He).
-  assert (Hp1 : pc s1 i = RRet r).
-  { cbn [exec] in He. rewrite Hp, Hf in He. injection He as <-. cbn [set_pc pc]. now rewrite upd_same. }
-  destruct (ret_completes s1 i r I1 Hp1) as (ls & s' & H1 & H2 & H3).
-  exists (LReturn i r :: ls), s'. split; [exact H1|]. split; [cbn [run]; now rewrite He|exact H3].
+  assert (Hp1 : pc s1 i = RRet r /\ wbroken s1 = wbroken s).
+  { cbn [exec] in He. rewrite Hp, Hf in He. injection He as <-. cbn [set_pc pc wbroken]. now rewrite upd_same. }
+  destruct Hp1 as [Hp1 Hb1].
+  destruct (ret_completes s1 i r I1 Hp1) as (ls & s' & H1 & H2 & H3 & H4).
+  exists (LReturn i r :: ls), s'. split; [exact H1|]. split; [cbn [run]; now rewrite He|]. split; [exact H3|congruence].
 Qed.
 
 Lemma flush_completes s i w t old : Inv s -> pc s i = RRun w -> nth_error inp i = Some (FReq t (KFlush old)) ->
   (old = t \/ forall j k, j < i -> nth_error inp j = Some (FReq old k) -> running (pc s j) = false) ->
-  exists ls s', forallb progress_label ls = true /\ run inp ls s = Some s' /\ pc s' i = RDone rflush_reply.
+  exists ls s', forallb progress_label ls = true /\ run inp ls s = Some s' /\ send_over s' i rflush_reply /\ wbroken s' = wbroken s.
 Proof.
   intros I Hp Hf Hc.
   destruct (flush_at_once s i w t old I Hp Hf Hc) as (s1 & He).
   assert (I1 := Inv_step _ _ _ I He).
-  assert (Hp1 : pc s1 i = RRet rflush_reply).
+  assert (Hp1 : pc s1 i = RRet rflush_reply /\ wbroken s1 = wbroken s).
   { cbn [exec] in He. rewrite Hp, Hf in He.
     destruct (match w with Some c => closed s c | None => true end); [|discriminate].
-    injection He as <-. cbn [set_pc pc]. now rewrite upd_same. }
-  destruct (ret_completes s1 i _ I1 Hp1) as (ls & s' & H1 & H2 & H3).
-  exists (LPass i :: ls), s'. split; [exact H1|]. split; [cbn [run]; now rewrite He|exact H3].
+    injection He as <-. cbn [set_pc pc wbroken]. now rewrite upd_same. }
+  destruct Hp1 as [Hp1 Hb1].
+  destruct (ret_completes s1 i _ I1 Hp1) as (ls & s' & H1 & H2 & H3 & H4).
+  exists (LPass i :: ls), s'. split; [exact H1|]. split; [cbn [run]; now rewrite He|]. split; [exact H3|congruence].
+Qed.
+
+Lemma send_over_unbroken s i r : Inv s -> wbroken s = false -> send_over s i r -> In (i, r) (replies s).
+Proof. intros I Hb [H|[H _]]; [now apply (I_rep _ I)|congruence]. Qed.
+
+(** * Shutdown: after the connection error (EOF) every idle goroutine leaves; when no request
+      is in progress any more, nothing is left that Handle (pendingWg.Wait) waits for *)
+Lemma shutdown_drains n : forall s, Inv s -> shut s = true -> recvmu s = false -> nnew s + nidle s = n ->
+  exists ls s', forallb intake_label ls = true /\ run inp ls s = Some s' /\ nnew s' = 0 /\ nidle s' = 0 /\
+    pc s' = pc s /\ replies s' = replies s /\ wire s' = wire s.
+Proof.
+  induction n as [n IH] using lt_wf_ind. intros s I Hs Hm Hn.
+  destruct (nidle s) as [|m] eqn:Hi.
+  - destruct (nnew s) as [|k] eqn:Hk.
+    + exists [], s. repeat split; auto.
+    + destruct (exec inp LInc s) as [s1|] eqn:He; [|cbn [exec] in He; rewrite Hk in He; discriminate].
+      assert (I1 := Inv_step _ _ _ I He). cbn [exec] in He. rewrite Hk in He. injection He as He.
+      destruct (exec inp LRecv s1) as [s2|] eqn:He2; [|subst s1; cbn [exec nidle recvmu shut] in He2; rewrite Hm, Hs in He2; discriminate].
+      assert (I2 := Inv_step _ _ _ I1 He2).
+      subst s1. cbn [exec nidle recvmu shut] in He2. rewrite Hm, Hs in He2. injection He2 as He2.
+      destruct (IH (nnew s2 + nidle s2)) with (s := s2) as (ls & s' & H1 & H2 & H3 & H4 & H5 & H6 & H7);
+        try (subst s2; cbn [nnew nidle shut recvmu]; auto; lia).
+      exists (LInc :: LRecv :: ls), s'. split; [exact H1|]. split.
+      * cbn [run exec]. rewrite Hk. cbn [nidle recvmu shut]. rewrite Hm, Hs. subst s2. exact H2.
+      * subst s2. cbn [pc replies wire] in *. auto.
+  - destruct (exec inp LRecv s) as [s2|] eqn:He2; [|cbn [exec] in He2; rewrite Hi, Hm, Hs in He2; discriminate].
+    assert (I2 := Inv_step _ _ _ I He2).
+    cbn [exec] in He2. rewrite Hi, Hm, Hs in He2. injection He2 as He2.
+    destruct (IH (nnew s2 + nidle s2)) with (s := s2) as (ls & s' & H1 & H2 & H3 & H4 & H5 & H6 & H7);
+      try (subst s2; cbn [nnew nidle shut recvmu]; auto; lia).
+    exists (LRecv :: ls), s'. split; [exact H1|]. split.
+    + cbn [run exec]. rewrite Hi, Hm, Hs. subst s2. exact H2.
+    + subst s2. cbn [pc replies wire] in *. auto.
+Qed.
+
+(** once the peer has stopped reading nothing more reaches the wire *)
+Lemma broken_frozen s l s' : exec inp l s = Some s' -> wbroken s = true -> wire s' = wire s /\ wbroken s' = true.
+Proof.
+  intros H Hb. destruct l; cbn [exec] in H;
+  repeat match type of H with
+         | match ?x with _ => _ end = Some _ => destruct x eqn:?; try discriminate H
+         | Some _ = Some _ => injection H as H; subst
+         end; cbn [set_pc wire wbroken]; auto.
+  rewrite Hb in *. rewrite andb_false_r in *. discriminate.
+Qed.
+
+Lemma broken_frozen_steps s s' : steps inp s s' -> wbroken s = true -> wire s' = wire s /\ wbroken s' = true.
+Proof.
+  intros Hs Hb. induction Hs as [|s l s' s'' Hs IH He]; [auto|].
+  destruct (IH Hb) as [Hw Hb']. destruct (broken_frozen _ _ _ He Hb') as [Hw2 Hb2]. split; [congruence|assumption].
 Qed.
 
 End WithInput.
